@@ -343,3 +343,48 @@ Proof.
   intros inst df cs g name fl F r. apply runtime_like_installed.
   apply wf_run; [apply wf_empty|exact F].
 Qed.
+
+(* ---- a checker for a concrete installed table (run on the regenerated table of /repo's
+   environment on every check run): every installed suffix, and every installed alias,
+   resolves through find_plugin to a class that some format *name* resolves to as well ---- *)
+Definition finds (inst : eps) (df : dflts) (g : str) (name : pname) (fl : option str) (k : klass) : bool :=
+  match find_plugin [] inst df g name fl with Ok k' => N.eqb k' k | _ => false end.
+Definition has_name (inst : eps) (df : dflts) (base : str) (k : klass) : bool :=
+  existsb (fun e' => str_eqb (fst (fst e')) base && finds inst df base (NStr (snd (fst e'))) None k) inst.
+Definition suffix_entry_ok (inst : eps) (df : dflts) (e : (str * str) * klass) : bool :=
+  let g := fst (fst e) in
+  if endswith g s_suffixes then
+    let base := strip_suffix g s_suffixes in
+    match find_plugin [] inst df base NNone (Some (97%N :: snd (fst e))) with
+    | Ok k => has_name inst df base k
+    | _ => false
+    end
+  else if endswith g s_aliases then
+    let base := strip_suffix g s_aliases in
+    match find_plugin [] inst df base (NStr (snd (fst e))) None with
+    | Ok k => has_name inst df base k
+    | _ => false
+    end
+  else true.
+Definition installed_table_ok (inst : eps) (df : dflts) : bool := forallb (suffix_entry_ok inst df) inst.
+
+Lemma has_name_sound inst df base k :
+  has_name inst df base k = true -> exists n, find_plugin [] inst df base (NStr n) None = Ok k.
+Proof.
+  unfold has_name. intros H. apply existsb_exists in H as [e [_ H]].
+  apply andb_prop in H as [_ H]. unfold finds in H. exists (snd (fst e)).
+  destruct (find_plugin [] inst df base (NStr (snd (fst e))) None); try discriminate.
+  apply N.eqb_eq in H. now subst.
+Qed.
+
+(* choosing the format from an installed suffix equals naming some installed format *)
+Lemma installed_suffix_has_name inst df g sfx k0 :
+  installed_table_ok inst df = true -> In ((g, sfx), k0) inst -> endswith g s_suffixes = true ->
+  exists n k, find_plugin [] inst df (strip_suffix g s_suffixes) NNone (Some (97%N :: sfx)) = Ok k
+           /\ find_plugin [] inst df (strip_suffix g s_suffixes) (NStr n) None = Ok k.
+Proof.
+  intros T I E. unfold installed_table_ok in T. rewrite forallb_forall in T. specialize (T _ I).
+  unfold suffix_entry_ok in T. cbn [fst snd] in T. rewrite E in T.
+  destruct (find_plugin [] inst df (strip_suffix g s_suffixes) NNone (Some (97%N :: sfx))) as [k| | |]; try discriminate.
+  apply has_name_sound in T as [n Hn]. now exists n, k.
+Qed.
